@@ -200,7 +200,7 @@ static void DiscardArgs(void) {
     }
     if (DiscCnt > 0) {
         for (z = 0; z <= ArgCnt - DiscCnt; z++) {
-            strmov(ArgStr[z + 1].str.p_str, ArgStr[z + DiscCnt].str.p_str);
+            as_dynstr_copy(&ArgStr[z + 1].str, &ArgStr[z + DiscCnt].str);
         }
         ArgCnt -= DiscCnt - 1;
     }
